@@ -291,6 +291,42 @@ func enumerateRules(e *Env, r *Report) ([]genRule, bool) {
 	return out, len(out) > 0
 }
 
+// stratify picks perClass rules of every class of the space: class = kind + for every field
+// whether it is absent (choice 0) or present, with the choice itself for the access list and the
+// qualifier - a uniform sample of the vectors rarely meets the rare shapes (dbus bind without name).
+func stratify(gen []genRule, perClass int, rng *rand.Rand) []genRule {
+	classes := map[string][]genRule{}
+	keys := []string{}
+	for _, g := range gen {
+		sc := schemaOf(g.Kind)
+		var b strings.Builder
+		b.WriteString(g.Kind)
+		for i, c := range g.Vec {
+			f := sc.Fields[i].Field
+			if f == "Access" || f == "Qualifier" || f == "Comment" {
+				fmt.Fprintf(&b, "|%d", c)
+			} else if c == 0 {
+				b.WriteString("|-")
+			} else {
+				b.WriteString("|x")
+			}
+		}
+		k := b.String()
+		if _, ok := classes[k]; !ok {
+			keys = append(keys, k)
+		}
+		classes[k] = append(classes[k], g)
+	}
+	sort.Strings(keys)
+	res := []genRule{}
+	for _, k := range keys {
+		cl := classes[k]
+		rng.Shuffle(len(cl), func(i, j int) { cl[i], cl[j] = cl[j], cl[i] })
+		res = append(res, cl[:min(perClass, len(cl))]...)
+	}
+	return res
+}
+
 func rebuild(g genRule) aa.Rule {
 	r, _ := buildRule(schemaOf(g.Kind), g.Vec)
 	return r
@@ -458,12 +494,12 @@ func checkC09(e *Env, r *Report) {
 	rng.Shuffle(len(gen), func(i, j int) { gen[i], gen[j] = gen[j], gen[i] })
 	recs := []any{}
 	// single rules: quick = seeded sample per kind (spread over the whole space), thorough = all
-	perKind := map[string]int{}
-	for _, g := range gen {
-		if e.Tier != "thorough" && perKind[g.Kind] >= 500 {
-			continue
-		}
-		perKind[g.Kind]++
+	singles := gen
+	if e.Tier != "thorough" {
+		singles = stratify(gen, 1, rng)
+	}
+	r.Coverage["single_rule_classes"] = len(stratify(gen, 1, rand.New(rand.NewSource(1))))
+	for _, g := range singles {
 		recs = append(recs, roundTrip("rule:"+ruleLabel(g), aa.Rules{rebuild(g)}, false))
 	}
 	nSingle := len(recs)
@@ -852,22 +888,32 @@ func checkC12(e *Env, r *Report) {
 	rng := rand.New(rand.NewSource(e.Seed))
 	rng.Shuffle(len(gen), func(i, j int) { gen[i], gen[j] = gen[j], gen[i] })
 	cand := []genRule{}
-	perKind := map[string]int{}
-	for _, g := range gen {
+	pool := gen
+	if e.Tier != "thorough" {
+		// one rule of every class (kind x present fields x access x qualifier), comments merged
+		noc := []genRule{}
+		for _, g := range gen {
+			sc := schemaOf(g.Kind)
+			ci := -1
+			for i, f := range sc.Fields {
+				if f.Field == "Comment" {
+					ci = i
+				}
+			}
+			if ci < 0 || g.Vec[ci] == 0 {
+				noc = append(noc, g)
+			}
+		}
+		pool = stratify(noc, 1, rng)
+	}
+	for _, g := range pool {
 		sc := schemaOf(g.Kind)
 		if !sc.AA3 || g.Kind == "include" || g.Kind == "comment" {
 			continue
 		}
-		lim := 60
-		if e.Tier == "thorough" {
-			lim = 1 << 30
-		}
-		if perKind[g.Kind] >= lim {
-			continue
-		}
-		perKind[g.Kind]++
 		cand = append(cand, g)
 	}
+	r.Coverage["single_rules_shown_to_reference_parser"] = len(cand)
 	dir := filepath.Join(e.Scratch, "stubs")
 	_ = os.MkdirAll(dir, 0o755)
 	recs := make([]any, len(cand))
